@@ -1305,5 +1305,18 @@ def rule_v18(ctx):
     return res
 
 
+def rule_v19(ctx):
+    """Cross-reference: a multiplication by a literal is lowered as sign handling + repeated addition; the value is only right if the
+    sign of the literal and the magnitude are both applied on every path (C03-A4): `x * -1` lowered as `x` returns the operand."""
+    from . import C03
+    res = RuleResult("V19", "multiplication by a literal applies magnitude and sign of the literal (cross-reference to C03-A4)")
+    sub = C03.rule_a4(ctx)
+    for x in sub.findings:
+        res.bad(Finding("V19", x.fn, x.site, x.message, x.span))
+    if not sub.findings:
+        res.ok({"verdict": "C03-A4 holds"})
+    return res
+
+
 def run(ctx):
-    return ctx.run_rules([rule_v13, rule_v12, rule_v11, rule_v1, rule_v2, rule_v3, rule_v4, rule_v5, rule_v6, rule_v7, rule_v8, rule_v9, rule_v10, rule_v14, rule_v15, rule_v16, rule_v17, rule_v18])
+    return ctx.run_rules([rule_v13, rule_v12, rule_v11, rule_v1, rule_v2, rule_v3, rule_v4, rule_v5, rule_v6, rule_v7, rule_v8, rule_v9, rule_v10, rule_v14, rule_v15, rule_v16, rule_v17, rule_v18, rule_v19])
